@@ -195,8 +195,7 @@ def part_a(ctx, vh, n):
             raise Inconclusive(f"scan panicked: {r}")
         judge_import_ws(ctx, vh, db, ws, model, root)
         vh.call(op="drop_db", db=db)
-        if i < 2:
-            ctx.sample({"spec": ws.spec})
+        ctx.sample({"spec": ws.spec})
         ctx.count("import_graphs")
         shutil.rmtree(root, ignore_errors=True)
 
@@ -356,8 +355,7 @@ def part_b(ctx, vh, n, n_srv):
         vh.call(op="drop_db", db=db)
         if i < n_srv:
             server_symbols(ctx, root, files, expect)
-        if i < 2:
-            ctx.sample({"expect": expect, "files": sorted(files)[:25]})
+        ctx.sample({"expect": expect, "files": sorted(files)[:25]})
         ctx.count("venv_layouts")
         shutil.rmtree(base, ignore_errors=True)
 
